@@ -104,6 +104,15 @@ def handle : Handler := fun op a =>
       | "view" | "viewapply" => pure (answerView src shapeF idxF)
       | "mutable" | "mutableapply" => pure (answerMutable src shapeF idxF)
       | _ => none
+  | "slice2" => orBad do     -- a[sl][sl2]: two nested slice views (run-time encoding)
+      let src ← a.nats "shape"
+      let es1 ← (a.get? "sl").bind parseEntries
+      let es2 ← (a.get? "sl2").bind parseEntries
+      match shapeDynamicSlice src es1 with
+      | none => pure "unmodelled"
+      | some mid =>
+        pure (answerView src (shapeDynamicSlice mid es2)
+          (fun d => (dynamicSlice mid es2 d).bind (fun m => if decide (InShape m mid) then dynamicSlice src es1 m else none)))
   | _ => none
 
 end NmVerif.Driver.C05
